@@ -271,6 +271,58 @@ Proof.
   pstep. pstep; [lia|]. pstep. auto.
 Qed.
 
+(* asnCopyOid: all stores stay inside the MAX_OID_BYTES array, for every (unbounded) derlen *)
+Lemma oid_put_append (Q : bytes -> Prop) written idx v :
+  idx = lenN written -> idx < n_MAX_OID_BYTES -> Q (written ++ [v]) -> post Q (oid_put written idx v).
+Proof.
+  intros E H HQ. unfold oid_put.
+  destruct (N.ltb_spec idx n_MAX_OID_BYTES); [|lia].
+  destruct (N.eqb_spec idx (lenN written)); [exact HQ|lia].
+Qed.
+
+Lemma oid_copy_loop_spec data : forall i len w,
+  lenN w = 2 + i -> 2 + i + lenN data <= n_MAX_OID_BYTES ->
+  post (fun r => snd r = w ++ data /\ fst r <= len + lenN data) (oid_copy_loop data i len w).
+Proof.
+  induction data as [|ch r IH]; intros i len w Hw Hb; cbn [oid_copy_loop].
+  - cbn [post fst snd]. rewrite app_nil_r. split; [reflexivity|lia].
+  - assert (L : lenN (ch :: r) = 1 + lenN r) by (unfold lenN; cbn [length]; lia).
+    pstep. apply oid_put_append; [lia|lia|].
+    eapply post_weaken; [apply IH|].
+    + rewrite lenN_app. change (lenN [ch]) with 1. lia.
+    + lia.
+    + intros [l' w']. cbn [fst snd]. intros [E1 E2]. split.
+      * rewrite E1, <- app_assoc. reflexivity.
+      * destruct (128 <=? ch); lia.
+Qed.
+
+Definition oidcopy_post (buf : bytes) (p derlen : N) (r : N * bytes) : Prop :=
+  let '(ret, w) := r in
+  lenN w <= n_MAX_OID_BYTES /\ ret < 256 /\
+  (0 < ret -> 1 <= derlen /\ derlen + 2 <= n_MAX_OID_BYTES /\ w = [n_ASN_OID; derlen] ++ sub_bytes buf p derlen).
+
+Lemma asnCopyOid_spec buf limit p derlen :
+  holds buf limit -> p + derlen <= limit ->
+  post (oidcopy_post buf p derlen) (asnCopyOid buf limit p derlen).
+Proof.
+  intros Hh Hp. unfold asnCopyOid.
+  assert (M : 2 < n_MAX_OID_BYTES) by (unfold n_MAX_OID_BYTES; lia).
+  pstep.
+  - pstep. apply oid_put_append; [reflexivity|lia|].
+    pstep. apply oid_put_append; [reflexivity|lia|].
+    pstep. unfold oidcopy_post. change (lenN ([] ++ [0] ++ [0])) with 2. change (lenN (([] ++ [0]) ++ [0])) with 2. change (lenN [0; 0]) with 2. splits; try lia.
+  - b2p. pstep. apply oid_put_append; [reflexivity|lia|].
+    pstep. apply oid_put_append; [reflexivity|lia|].
+    pstep. pstep; [lia|].
+    pstep. eapply post_weaken; [apply (oid_copy_loop_spec _ 0 1); [reflexivity|lia]|].
+    intros [len w]. cbn [fst snd]. intros [E1 E2].
+    assert (D : derlen mod 256 = derlen) by (apply N.mod_small; unfold n_MAX_OID_BYTES in *; lia).
+    assert (LW : lenN w = 2 + derlen) by (rewrite E1, lenN_app; unfold lenN at 1; cbn [app length]; lia).
+    assert (ML : len mod 256 < 256) by (apply N.mod_lt; discriminate).
+    pstep; pstep; unfold oidcopy_post; splits; try lia.
+    intros _. splits; try lia. rewrite E1, D. reflexivity.
+Qed.
+
 (* ------------------------------------------------------------------------------------------ GeneralNames *)
 Lemma printable_spec c : printable c = true <-> printable_byte c.
 Proof. unfold printable, printable_byte. lia. Qed.
@@ -1055,3 +1107,19 @@ Proof.
   - apply pem_decode_safe; auto.
   - apply pem_cert_list_safe; auto.
 Qed.
+
+Lemma p09_oid_copy_bounded : forall buf limit p derlen,
+  holds buf limit -> p + derlen <= limit ->
+  safe (asnCopyOid buf limit p derlen) /\
+  (forall ret oid, asnCopyOid buf limit p derlen = Ok (ret, oid) ->
+     lenN oid <= n_MAX_OID_BYTES /\ ret < 256 /\
+     (0 < ret -> 1 <= derlen /\ derlen + 2 <= n_MAX_OID_BYTES /\ oid = [n_ASN_OID; derlen] ++ sub_bytes buf p derlen)).
+Proof.
+  intros buf limit p derlen H1 H2.
+  pose proof (asnCopyOid_spec buf limit p derlen H1 H2) as P.
+  split; [eapply post_safe; exact P|]. intros ret oid E. rewrite E in P. exact P.
+Qed.
+
+Example ex_oidcopy : asnCopyOid [85; 29; 17] 3 0 3 = Ok (4, [6; 3; 85; 29; 17]) /\
+                     asnCopyOid (repeat 3 (N.to_nat 260)) 260 0 260 = Ok (0, [0; 0]).
+Proof. split; vm_compute; reflexivity. Qed.
